@@ -141,7 +141,8 @@ def system_spec(
             has_blocking = any(c["dst"] == nd["name"] and c["blocking"] for c in cspecs)
             if has_blocking and draw(st.integers(0, 3)) == 0:
                 nd["advance"] = True
-    sup = f"n{draw(st.integers(0, n - 1))}"
+    with_inputs = sorted({c["dst"] for c in cspecs})  # a supervisor without inputs has an empty compiled partition
+    sup = draw(st.sampled_from(with_inputs)) if draw(st.integers(0, 9)) > 0 else f"n{draw(st.integers(0, n - 1))}"
     n_eps = draw(st.integers(1, max_eps))
     episodes = [draw(st.integers(min_steps, max_steps)) for _ in range(n_eps)]
     spec = dict(
